@@ -130,7 +130,7 @@ def histories(draw, kind, tier):
     ops = draw(st.lists(op, min_size=6, max_size=40 if tier == "quick" else 60))
     return {"kind": kind, "maxsize": maxsize, "typed": typed,
             "fn_form": draw(st.sampled_from(["async", "async", "def-eager", "object"])),
-            "eq_instances": draw(st.sampled_from([False, False, True])) if kind == "method" else False,
+            "eq_instances": draw(st.sampled_from([False, False, True, "unhashable"])) if kind == "method" else False,
             "ops": [[o[0], o[1]] + ([[list(o[2][0]), [list(p) for p in o[2][1]]]] if len(o) > 2 else [])
                     for o in ops]}
 
@@ -330,7 +330,14 @@ def build_targets(case, extra=None):
             def __bool__(self):
                 return self.tag != "inst1"
 
-            if case.get("eq_instances"):
+            if case.get("eq_instances") == "unhashable":
+                # instances with __eq__ and no __hash__ (a plain dataclass): they cannot be part of a cache key -
+                # every call through such an instance fails with TypeError, for functools and for the library
+                def __eq__(self, other):
+                    return type(other) is type(self)
+
+                __hash__ = None
+            elif case.get("eq_instances"):
                 # instances with VALUE equality: equal (one cache key, as for functools) but not the same object
                 def __eq__(self, other):
                     return type(other) is type(self)
@@ -431,6 +438,8 @@ def check(case, drive=None):
     def model_call(inst, args, kwargs):
         margs = ((("self", inst_ids[inst] if not case.get("eq_instances") else 0),) if case["kind"] == "method" else
                  (("cls",),) if case["kind"] == "classmethod" else ()) + args
+        if case.get("eq_instances") == "unhashable" and model.maxsize != 0:
+            return ("raise", "TypeError")  # (a disabled cache builds no key: there the call goes through)
         try:
             key, hit = model.lookup(margs, kwargs)
         except TypeError:
@@ -535,6 +544,8 @@ def check(case, drive=None):
                              (("cls",),) if case["kind"] == "classmethod" else ()) + args
                     before = len(model.cache)
                     try:
+                        if case.get("eq_instances") == "unhashable" and model.maxsize != 0:
+                            raise TypeError("unhashable instance")
                         model.discard(margs, kwargs)
                         want = None
                     except TypeError:
